@@ -650,6 +650,121 @@ def tmpl_label_table(rng):
     return prog
 
 
+def tmpl_first_command_source(rng):
+    """The very FIRST command of the program (location 0) becomes a jump SOURCE: it registers one label on its first
+    evaluation (empty stack), is re-entered through that label later, takes its other branch and jumps forward; a ♡
+    evaluated after that must return to location 0."""
+    from .refinterp import Machine, Limits
+    prog = None
+    for _ in range(40):
+        d0 = rng.choice([3, 4, 5, 6])
+        dr = rng.choice([4, 5, 7])
+        kA, kB = rng.sample([1, 2, 3, 4, 5, 6, 7, 8, 9, 10, 11, 12], 2)
+        op0, opm, opj, opr = [rng.choice(['?', '?', '!']) for _ in range(4)]
+
+        def val(op, truth, count):
+            if op == '?':
+                return rng.choice([0, 1, count - 1]) if truth else rng.choice([count, count + 1, 9])
+            return count if truth else rng.choice([0, count + 1, count - 1])
+        x = lambda: rng.choice([0, 1, 2, 5, 9])
+        anyv = lambda: rng.choice([0, 3, 9])
+        seq = [x(), val(opm, True, d0), x(), val(opj, True, d0),                         # M registers kA | JB jumps to 0
+               x(), val(op0, True, d0), x(), anyv(), x(), val(opj, False, d0),           # 0 jumps to M | M | JB falls
+               x(), val(opr, True, dr),                                                  # R: ♡ -> back to 0
+               x(), val(op0, True, d0), x(), anyv(), x(), val(opj, False, d0),           # 0 jumps to M | M | JB falls
+               x(), val(opr, False, dr)]                                                 # R falls
+        pr = lambda ch: ([(0, 1, ch, None), (1, 1, 1, None)] if rng.random() < 0.5 else [])
+        prog = [(1, 1, d0, (op0, kA, kB))]
+        prog += [(0, 1, v, None) for v in reversed(seq)]
+        prog.append((1, 1, d0, (opm, kA, None)))
+        prog += pr(65)
+        prog.append((1, 1, d0, (opj, kB, None)))
+        prog += pr(66)
+        prog.append((1, 1, dr, (opr, 13, None)))
+        prog += [(0, 1, 90, None), (1, 1, 1, None)] + ([(1, 1, 1, None)] if rng.random() < 0.3 else [])
+        m = Machine(prog, '', Limits(steps=300))
+        o, e, end = m.run()
+        if not end.startswith('notadmitted') and m.st['heart_return_to_first_command']:
+            break
+    return prog
+
+
+def tmpl_abandoned_return(rng):
+    """A ♡ command at the top level of the input-free prefix returns to an EARLIER jump source; the continuation then
+    performs more than 100 jumps from a DIFFERENT source, so the level-2 speculation of the ♡ command is given up and the
+    command runs at run time instead - where ♡ must still mean the jump source recorded before the speculation."""
+    from .progcheck import prefix_model_info
+    prog = None
+    for _ in range(30):
+        prog = _abandoned_return_once(rng)
+        k, cause, info = prefix_model_info(prog)
+        if cause in ('budget', 'io') and info['first_step_return'] and info['latest_changed']:
+            break
+    return prog
+
+
+def _abandoned_return_once(rng):
+    pr1, pr2, pr3 = rng.sample([4, 5, 6, 7, 8], 3)
+    k1, k2 = rng.sample([1, 2, 3, 4, 5, 6, 7, 8, 9, 10, 11, 12], 2)
+    big = 9
+    x = lambda: rng.choice([0, 1, 2, 3, 9, 12])
+    A = [(0, 1, 65, None), (1, 1, 1, None)] if rng.random() < 0.8 else []
+    # consumption order from the top of stack 3 (see the command list below)
+    top = [x(), x(), 0, x(), x(), big]           # L1 | J1 jumps | L1 | J1 falls
+    top += [x(), x(), big]                        # L2 | J2 falls (jumps only on small values)
+    top += [x(), 0]                               # K takes ♡ -> back to J1
+    top += [x(), big, x()]                        # J1 falls | L2
+    nz = 300 + rng.randint(6, 90)
+    prog = [(0, 1, big, None)] * rng.randint(4, 8)
+    prog += [(0, 1, 0, None), (5, nz, 3, None)]
+    for v in reversed(top):
+        prog.append((0, 1, v, None))
+    filler = lambda: ([(0, 1, 66, None), (1, 1, rng.choice([1, 2]), None)] if rng.random() < 0.3 else [])
+    prog.append((1, 1, pr1, k1))                                         # L1
+    prog += filler()
+    prog.append((1, 1, pr1, rng.choice([('?', k1, None), ('?', k1, ('?', None, None))])))   # J1
+    prog += A
+    prog.append((1, 1, pr2, k2))                                         # L2
+    prog.append((1, 1, pr2, ('?', k2, None)))                            # J2: back to L2 while small values last
+    prog += filler()
+    prog.append((1, 1, pr3, rng.choice([('?', 13, None), ('?', 13, ('?', None, None)), ('!', None, ('?', 13, None))])))   # K
+    prog += [(0, 1, 90, None), (1, 1, 1, None)]
+    if rng.random() < 0.4:
+        prog += read_fragment(rng) + [(1, 1, 1, None)]
+    return prog
+
+
+def tmpl_two_labels(rng):
+    """ONE command with a compound area is visited twice before the first input read (a backward jump in between) with
+    different comparison results and registers a different label each time, so two labels live on the same command;
+    after the read, data-driven jumps go to both labels."""
+    from .refinterp import Machine, Limits
+    prog = None
+    for _ in range(600):
+        c = rng.choice([4, 5, 6, 8])
+        pr = rng.choice([x for x in (4, 5, 6, 7) if x != c])
+        k1, k2, kl = rng.sample([1, 2, 3, 4, 5, 6, 7, 8, 9, 10, 11, 12], 3)
+        op = rng.choice(['?', '?', '!'])
+        xa = rng.choice([(op, k1, k2), (op, k1, ('?', k2, None)), (op, ('!', k1, k1), k2), ('?', k1, ('!', None, k2))])
+        prog = [(0, 1, rng.choice([0, 1, 2, c - 1, c, c + 1, 9, pr - 1, pr]), None) for _ in range(rng.randint(6, 20))]
+        prog.append((1, 1, pr, kl))                               # loop label
+        prog += [(0, 1, 66, None), (1, 1, rng.choice([1, 2]), None)] if rng.random() < 0.3 else []
+        prog.append((1, 1, c, xa))                                # the command that will own two labels
+        prog += [(0, 1, 65, None), (1, 1, 1, None)] if rng.random() < 0.6 else []
+        prog.append((1, 1, pr, ('?', kl, None)))                  # back to the loop label while small values last
+        prog += read_fragment(rng)
+        order = [k1, k2] if rng.random() < 0.5 else [k2, k1]
+        for h in order + ([rng.choice(order)] if rng.random() < 0.4 else []):
+            prog.append((0, 1, c, ('?', None, rng.choice([('?', h, None), ('?', None, h), ('!', h, None), h]))))
+            if rng.random() < 0.5:
+                prog += [(0, 1, 90, None), (1, 1, 1, None)]
+        m = Machine(prog, 'ab\ncd\n', Limits(steps=800))
+        o, e, end = m.run()
+        if not end.startswith('notadmitted') and m.st['jump_to_multi_label_command_after_read']:
+            break
+    return prog
+
+
 def _hearts_of(a):
     out = []
     stack = [a]
@@ -800,6 +915,9 @@ INPUT_TEMPLATES = {
     'big_handover': lambda rng, ai: tmpl_big_handover(rng),
     'pending_return': lambda rng, ai: tmpl_pending_return(rng),
     'label_table': lambda rng, ai: tmpl_label_table(rng),
+    'two_labels': lambda rng, ai: tmpl_two_labels(rng),
+    'first_command_source': lambda rng, ai: tmpl_first_command_source(rng),
+    'abandoned_return': lambda rng, ai: tmpl_abandoned_return(rng),
     'stack0_data': lambda rng, ai: tmpl_stack0_data(rng),
 }
 
